@@ -9,8 +9,13 @@ import vlib
 
 
 def esc(line):
+    """the text of one doc attribute as it stands in the comment: `*/` escaped, a leading `/` kept off the star, and
+    empty lines filled with ` *` (an empty line would split the block when the file is shared, C05)"""
     t = line.replace("*/", "*\\/")
-    return " " + t if t.startswith("/") else t
+    t = " " + t if t.startswith("/") else t
+    while "\n\n" in t:
+        t = t.replace("\n\n", "\n *\n")
+    return t
 
 
 def run(ctx):
@@ -79,6 +84,9 @@ def check_one(ctx, res, seed, st, samples, distinct):
                 continue
             ncom += 1
             st["comments"] += 1
+            if "\n\n" in tk[1]:
+                viol.append(dict(kind="property-violated", what="a comment block contains an empty line: merged into a shared file, the declaration is torn from its documentation",
+                                 comment=tk[1], type=C.rust_ty(qs[i]), text=text, definition=C.to_rust(d), seed=seed))
             nxt = toks[k + 1] if k + 1 < len(toks) else ("eof", "", -1)
             after = toks[k + 2] if k + 2 < len(toks) else ("eof", "", -1)
             attached = (nxt[:2] == ("id", "export")) or (nxt[0] in ("id", "str") and after[0] == "punct" and after[1] in (":", "?"))
